@@ -8,6 +8,7 @@ type PropSpec struct {
 	TrustedBase []string
 	Assumptions []string
 	Extra       func(r *Run) error
+	Sweep       []string // package path prefixes of the no-panic sweep (ledger properties)
 }
 
 var propSpecs = map[string]*PropSpec{
@@ -130,6 +131,22 @@ var propSpecs = map[string]*PropSpec{
 		Explanation: "every go statement of the module is found on every run and must be of a known kind (program, once, stopped, oneshot, bounded, startup, cli); for once / stopped / oneshot the code around the statement is checked for the pattern that bounds the goroutine's life (sync.Once.Do or a package-level guard set in the same block; a deferred close, at the top level of the starter, of a channel the goroutine waits on; a single final send on a channel of capacity >= 1)",
 		TrustedBase: []string{"a goroutine that waits in a select on a closed channel returns; a send on a channel with free capacity does not block", "per-site arguments for the kinds bounded, startup and cli (listed in govc/c09.go)", "no thread semantics: nothing here is a statement about schedules"},
 		Extra:       c09Extra,
+	},
+	"C40": {
+		Patterns:    []string{"./..."},
+		Level:       "proof",
+		Explanation: "partial: the committed ledger of no-panic sites (index, slice bounds, make sizes, map stores, integer division) in internal/router, internal/server/** and internal/util that a contract-free safe-mode sweep proved for all inputs is re-proved on the current tree (a site that stops discharging is a violation; a site whose expression is gone is undecided); plus safe-mode contracts on handlers found to index request-derived strings (tables.GrantPermissions / validPermissions); functions under contract for other properties carry their own safe obligations there",
+		TrustedBase: []string{"nil dereferences, unchecked type assertions and everything the sweep never proved are NOT claimed (counts in the evidence notes; ledger/C40.open.txt lists the sites left open)", "each function is swept on its own with unconstrained parameters (a non-nil receiver only): sites that need a caller's guarantee are left open, not assumed", "panics inside callees (library code, other packages) are outside each site's obligation"},
+		Sweep:       []string{modInternal + "router", modInternal + "server/", modInternal + "util"},
+		Extra:       ledgerExtra,
+	},
+	"C07": {
+		Patterns:    []string{"./..."},
+		Level:       "proof",
+		Explanation: "partial: the tokenizer's cursor API (Next, NextText, Peek, PeekText, Advance, CurrentLine, CurrentColumn, Set, Reset, Delete, Insert) is under safe-mode contracts with the representation invariant 'the cursor is never negative' (every function of the module that assigns Tokenizer.TokenP keeps it, table obligation), so every index into the token list is in bounds for every token list, cursor and argument; plus the ledger of no-panic sites the contract-free sweep proved in internal/language/tokenizer",
+		TrustedBase: []string{"the compiler and the bytecode interpreter are NOT covered (their dispatch functions are beyond what the sweep could lower in the memory available); the property as a whole (no source text crashes the host) is not decided", "nil dereferences are not claimed"},
+		Sweep:       []string{modInternal + "language/tokenizer"},
+		Extra:       c07Extra,
 	},
 	"C27": {
 		Patterns: []string{"./..."},
